@@ -137,14 +137,20 @@ impl Engine for ParseCheckEngine {
         match toks {
             ["p", h] => match unhex(h).as_deref().map(parse_whole) {
                 Some(Some(f)) => {
-                    let kind = match f {
-                        AMQPFrame::Method(ch, _) => format!("method {}", ch),
-                        AMQPFrame::Header(ch, _, _) => format!("header {}", ch),
-                        AMQPFrame::Body(ch, _) => format!("body {}", ch),
-                        AMQPFrame::Heartbeat(ch) => format!("heartbeat {}", ch),
-                        AMQPFrame::ProtocolHeader => "protocol-header".to_string(),
+                    let dbg_frame = format!("{:?}", f);
+                    let (kind, dbg_class) = match &f {
+                        AMQPFrame::Method(ch, c) => (format!("method {}", ch), format!("{:?}", c)),
+                        AMQPFrame::Header(ch, _, _) => (format!("header {}", ch), String::new()),
+                        AMQPFrame::Body(ch, _) => (format!("body {}", ch), String::new()),
+                        AMQPFrame::Heartbeat(ch) => (format!("heartbeat {}", ch), String::new()),
+                        AMQPFrame::ProtocolHeader => ("protocol-header".to_string(), String::new()),
                     };
-                    out.push(format!("ok {}", kind));
+                    out.push(format!(
+                        "ok {} {} {}",
+                        kind,
+                        crate::hex(dbg_class.as_bytes()),
+                        crate::hex(dbg_frame.as_bytes())
+                    ));
                 }
                 Some(None) => out.push("bad".into()),
                 None => out.push("bad-op".into()),
